@@ -235,6 +235,21 @@ def boundary_items(rnd, quick):
                               0xFB103201, 0xFB103231, 0xFB303201, 0xFB303211, 0xFB203201, 0xFB403201, 0xFB503201, 0xFB503211,
                               0xFB603201, 0xFB90F2F1, 0xFBB0F2F1):
                         items.append((True, w, {0: x, 1: y, 2: rnd.choice(B32), 3: rnd.choice(B32)}, 'mulgrid'))
+        # long multiply-accumulate whose 64-bit sum wraps to 0 / -1 / 1 (Z, N of the truncated result)
+        for x in B32:
+            for y in B32:
+                for signed in (False, True):
+                    sx = x - (1 << 32) if signed and x >> 31 else x
+                    sy = y - (1 << 32) if signed and y >> 31 else y
+                    for dlt in (0, 1, -1):
+                        acc = (-(sx * sy) + dlt) & 0xFFFFFFFFFFFFFFFF
+                        if not thumb:
+                            w = (0xE0F32190 if signed else 0xE0B32190)                       # SMLALS / UMLALS r2, r3, r0, r1
+                        else:
+                            w = (0xFBC03201 if signed else 0xFBE03201)                       # SMLAL / UMLAL r3(lo), r2(hi), r0, r1
+                        lo, hi = acc & 0xFFFFFFFF, acc >> 32
+                        regs = {0: x, 1: y, 2: lo, 3: hi} if not thumb else {0: x, 1: y, 3: lo, 2: hi}
+                        items.append((thumb, w, regs, 'mlal-wrap'))
         # SSAT / USAT around the saturation bounds
         for n in ([1, 8, 16, 31, 32] if quick else range(1, 33)):
             for dlt in (-2, -1, 0, 1):
